@@ -521,6 +521,14 @@ fn misc_device_cases(ctx: &Ctx) {
         ("two-operands", ".device ATmega8, ATmega16\nnop\n".to_string(), false),
         ("two-operands-same", ".device ATtiny13, ATtiny13\nnop\n".to_string(), false),
         ("two-operands-second-unknown", ".device ATmega8, nothing\nnop\n".to_string(), false),
+        // both selections come out of macro expansions
+        ("second-both-through-one-macro", ".macro chip\n.device @0\n.endm\n\tchip ATtiny20\n\tchip ATmega8\n\tnop\n".to_string(), false),
+        ("second-both-through-nested-macros", ".macro chip\n.device @0\n.endm\n.macro small_board\n\tchip ATtiny20\n.endm\n.macro big_board\n\tchip ATmega8\n.endm\n\tsmall_board\n\tbig_board\n.dseg\n.byte 129\n".to_string(), false),
+        ("second-same-both-through-macros", ".macro chip\n.device ATtiny13\n.endm\n\tchip\n\tnop\n\tchip\n".to_string(), false),
+        ("second-first-through-macro", ".macro chip\n.device ATtiny13\n.endm\n\tchip\n.device ATmega8\n".to_string(), false),
+        ("second-second-through-macro", ".device ATmega8\n.macro chip\n.device ATtiny13\n.endm\n\tnop\n\tchip\n".to_string(), false),
+        ("second-in-both-arms-of-taken-branches", ".if 1\n.device ATmega8\n.endif\n.ifndef nothing\n.device ATmega16\n.endif\n".to_string(), false),
+        ("single-through-nested-macros", ".macro chip\n.device @0\n.endm\n.macro board\n\tchip ATmega8\n.endm\n\tboard\n\tnop\n".to_string(), true),
         ("single", ".device ATmega8\nnop\n".to_string(), true),
     ];
     for (name, src, ok) in cases {
